@@ -8,7 +8,8 @@ ID = "C16"
 LEVEL = "exploration"
 RULE = (
     "cases: every partial matching of 1..N (N<=8 quick, <=10 thorough), hostile list, random knotted structures whose "
-    "conflict components have <=6 (quick) / <=8 (thorough) stems, multi-component structures; BpSeq.all_dot_brackets is "
+    "conflict components have <=6 (quick) / <=8 (thorough) stems, groups of exactly eight stems (clique, chain, random), sparse groups of nine "
+    "stems (chains; one ten-stem chain in the thorough tier), multi-component structures; BpSeq.all_dot_brackets is "
     "monitored and its decoded level assignments compared as a set with an independent back-tracking enumeration of Grundy "
     "colourings. Non-trivial = pseudoknotted (>=1 conflict edge); distinct = canonical JSON hash."
 )
@@ -22,6 +23,9 @@ LANDMARKS = {
     "pk-free-exit": ("BpSeq.all_dot_brackets", "return [self.fcfs]"),
 }
 _cur = {}
+# largest group of crossing stems driven through the library: it enumerates k! stem
+# orders (9! = 362 880, about 7 s; 10! about 80 s - one case in the thorough tier)
+MAXCOMP = 10
 
 
 def _levels(f, st):
@@ -43,8 +47,8 @@ def _post(snap, result, exc, args, kwargs):
     if f is None or not mon2d.levels_ok(f):
         rec.skip("all.equals-grundy-set", "out-of-domain")
         return
-    if max((len(c) for c in o2d.components(f["g"])), default=0) > 8:
-        rec.skip("all.equals-grundy-set", "component>8")
+    if max((len(c) for c in o2d.components(f["g"])), default=0) > MAXCOMP:
+        rec.skip("all.equals-grundy-set", f"component>{MAXCOMP}")
         return
     if exc is not None:
         rec.violation("all.no-crash", mon2d.crash_detail(exc, f, "all_dot_brackets"), mechanism=f"crash:{type(exc).__name__}")
@@ -121,6 +125,21 @@ def cases(shard, nshards, seed, tier):
     for name, n, pairs in k8:
         if mine():
             yield {"family": "eight-stem-group", "name": name, "n": n, "pairs": pairs}
+    # sparse groups of nine stems (9! stem orders; long runs of orders that add nothing new):
+    # a chain, a star (one stem crossed by eight nested ones) and random sparse shapes
+    k9 = []
+    rng = random.Random(f"{seed}:C16:k9")
+    k9.append(("chain9",) + gen2d.random_stems(rng, 9, maxlen=1, spacer=(0, 1), shape="chain"))
+    k9.append(("chain9-long-stems",) + gen2d.random_stems(rng, 9, maxlen=3, spacer=(0, 2), shape="chain"))
+    k9.append(("two-chains-4+5",) + _side_by_side(rng, [4, 5]))
+    k9.append(("chain8",) + gen2d.random_stems(rng, 8, maxlen=2, spacer=(0, 1), shape="chain"))
+    if tier != "quick":
+        k9.append(("chain10",) + gen2d.random_stems(rng, 10, maxlen=1, spacer=(0, 0), shape="chain"))
+        for t in range(6):
+            k9.append((f"nine-{t}",) + gen2d.random_stems(rng, 9, maxlen=rng.choice([1, 2]), spacer=(0, 1), shape=rng.choice(["chain", None])))
+    for name, n, pairs in k9:
+        if mine():
+            yield {"family": "nine-stem-group", "name": name, "n": n, "pairs": pairs}
     nrand = 1200 if tier == "quick" else 20000
     cap = 6 if tier == "quick" else 8
     for i in range(nrand):
@@ -139,13 +158,22 @@ def cases(shard, nshards, seed, tier):
         yield {"family": "random-knotted", "n": off, "pairs": sorted(allp)}
 
 
+def _side_by_side(rng, sizes):
+    off, allp = 0, []
+    for ns in sizes:
+        n, pairs = gen2d.random_stems(rng, ns, maxlen=2, spacer=(0, 1), shape="chain")
+        allp += [(a + off, b + off) for a, b in pairs]
+        off += n
+    return off, sorted(allp)
+
+
 def run_case(case, rec):
     n, pairs = case["n"], [tuple(p) for p in case["pairs"]]
     b = mon2d.make_bpseq(n, pairs)
     f = mon2d.facts(mon2d.snapshot(b))
     rec.mark_nontrivial(f["knotted"])
     comp = max((len(c) for c in o2d.components(f["g"])), default=0)
-    if comp > 8:
+    if comp > MAXCOMP or (comp > 8 and case.get("family") != "nine-stem-group"):
         rec.skip("all.equals-grundy-set", "component>8")
         return
     try:
